@@ -1,6 +1,7 @@
 import TetlProofs.C15.Lemmas
 import TetlProofs.C15.RatioAsm
 import TetlProofs.C15.RatioLess
+import TetlProofs.C15.RatioRat
 namespace Tetl.C15.Props
 open Tetl Tetl.C15 CType
 
@@ -363,6 +364,45 @@ theorem decay_eq (t : CType) (h : wf t = true) : M.decay t = Spec.decay t := by
   | mptr v q => cases v <;> rfl
   | _ => rfl
 
+/-! ### sign modifications and underlying type ([meta.trans.sign], [meta.trans.other]) -/
+
+/-- `make_signed<T>` as tetl computes it (explicit specialisations for the standard integer types, `make_signed_by_size`
+    for enumerations and `wchar_t`, `char8_t`, `char16_t`, `char32_t`, cv copied by `make_signed_copy_cv`) names the type
+    [meta.trans.sign] prescribes - the corresponding signed integer type, for enumerations and character types the signed
+    integer type of smallest rank with the same size - and is ill-formed for exactly the same types (`okOf` erases the
+    reason), for every type of the grammar -/
+theorem makeSigned_eq (t : CType) : okOf (M.makeSigned t) = okOf (Spec.makeSigned t) := by
+  by_cases h : ∃ b q, t = base b q
+  · obtain ⟨b, q, rfl⟩ := h; exact makeSigned_base b q
+  · have h' : ∀ b q, t ≠ base b q := fun b q e => h ⟨b, q, e⟩
+    unfold M.makeSigned Spec.makeSigned
+    rw [M_makeSignLike_nonbase _ _ t h', S_makeSignLike_nonbase _ _ t h']
+
+theorem makeUnsigned_eq (t : CType) : okOf (M.makeUnsigned t) = okOf (Spec.makeUnsigned t) := by
+  by_cases h : ∃ b q, t = base b q
+  · obtain ⟨b, q, rfl⟩ := h; exact makeUnsigned_base b q
+  · have h' : ∀ b q, t ≠ base b q := fun b q e => h ⟨b, q, e⟩
+    unfold M.makeUnsigned Spec.makeUnsigned
+    rw [M_makeSignLike_nonbase _ _ t h', S_makeSignLike_nonbase _ _ t h']
+
+/-- sample evaluations (tests): an enumeration with an 8-byte underlying type maps to `unsigned long` / `long`, the
+    smallest rank of that size on LP64 (not `unsigned long long`), cv-qualifiers are kept -/
+example : M.makeUnsigned (base .enumL ⟨true, false⟩) = .ok (base .ulong ⟨true, false⟩) := by decide
+example : M.makeUnsigned (base .enumULL CV.none) = .ok (base .ulong CV.none) := by decide
+example : M.makeSigned (base .enumULL ⟨false, true⟩) = .ok (base .long ⟨false, true⟩) := by decide
+example : M.makeSigned (base .ullong CV.none) = .ok (base .llong CV.none) := by decide
+
+/-- `underlying_type<T>`: no member `type` unless `T` is an enumeration; the fixed underlying type where there is one;
+    an integral type where the choice is the implementation's (`enum EU { … }`) -/
+theorem underlyingType_eq (t : CType) :
+    match Spec.underlyingType t with
+    | none => M.underlyingType t = none
+    | some none => ∃ u, M.underlyingType t = some u ∧ Spec.isIntegral u = true
+    | some (some u) => M.underlyingType t = some u := by
+  cases t with
+  | base b q => rcases q with ⟨_ | _, _ | _⟩ <;> cases b <;> first | rfl | exact ⟨_, rfl, rfl⟩
+  | _ => rfl
+
 /-! ### numeric_limits of the integer types -/
 
 /-- the members of an integer specialisation, as the header computes them, are the mathematical ones:
@@ -489,6 +529,51 @@ theorem ratioGreaterEqual_eq (a b : Rat) (ha : a.Valid) (hb : b.Valid) : ratioGr
   RC.ratioGreaterEqual_eq a b ⟨ha.1, ha.2.2⟩ ⟨hb.1, hb.2.2⟩
 /-- the witness of the former wrap-around: 2^62 < 1/2^62 is false -/
 example : (⟨1, 2 ^ 62, 1, 2 ^ 62⟩ : Rat).Valid ∧ Spec.less ((2 : Int) ^ 62, (1 : Int)) (1, 2 ^ 62) = false := by decide
+
+/-! #### the same statements against Mathlib's rational numbers `ℚ` (a reference that shares nothing with the model)
+
+`RQ.rval r = r.num / r.den : ℚ`; `RQ.Representable x`: numerator and denominator of the lowest-terms form of `x`
+(`x.num`, `x.den`, Mathlib's normal form: coprime, positive denominator) lie in `[-INTMAX_MAX, INTMAX_MAX]`. -/
+
+/-- `ratio<n, d>` is a valid specialisation (lowest terms, positive denominator: `mkRatio_valid`) of value `n / d` -/
+theorem mkRatio_rat (n d : Int) (hn : Spec.argOk n = true) (hd : Spec.argOk d = true) (h0 : d ≠ 0) :
+    ∃ r, mkRatio n d = .ok r ∧ r.Valid ∧ RQ.rval r = (n : ℚ) / (d : ℚ) := RQ.mkRatio_rat n d hn hd h0
+/-- the members of a valid specialisation are `num` and `den` of its value in `ℚ` -/
+theorem valid_num_den (r : Rat) (h : r.Valid) : (RQ.rval r).num = r.num ∧ ((RQ.rval r).den : Int) = r.den :=
+  RQ.valid_num_den r h
+
+/-- `ratio_add`: exact addition in `ℚ`, the canonical specialisation in lowest terms, exactly when the sum is representable;
+    ill-formed otherwise -/
+theorem ratioAdd_rat (a b : Rat) (ha : a.Valid) (hb : b.Valid) :
+    (RQ.Representable (RQ.rval a + RQ.rval b) →
+      ∃ r, ratioAdd a b = .ok r ∧ r.Valid ∧ r.canonical = true ∧ RQ.rval r = RQ.rval a + RQ.rval b) ∧
+    (¬ RQ.Representable (RQ.rval a + RQ.rval b) → isErr (ratioAdd a b)) := RQ.ratioAdd_rat a b ha hb
+theorem ratioSub_rat (a b : Rat) (ha : a.Valid) (hb : b.Valid) :
+    (RQ.Representable (RQ.rval a - RQ.rval b) →
+      ∃ r, ratioSub a b = .ok r ∧ r.Valid ∧ r.canonical = true ∧ RQ.rval r = RQ.rval a - RQ.rval b) ∧
+    (¬ RQ.Representable (RQ.rval a - RQ.rval b) → isErr (ratioSub a b)) := RQ.ratioSub_rat a b ha hb
+theorem ratioMul_rat (a b : Rat) (ha : a.Valid) (hb : b.Valid) :
+    (RQ.Representable (RQ.rval a * RQ.rval b) →
+      ∃ r, ratioMul a b = .ok r ∧ r.Valid ∧ r.canonical = true ∧ RQ.rval r = RQ.rval a * RQ.rval b) ∧
+    (¬ RQ.Representable (RQ.rval a * RQ.rval b) → isErr (ratioMul a b)) := RQ.ratioMul_rat a b ha hb
+theorem ratioDiv_rat (a b : Rat) (ha : a.Valid) (hb : b.Valid) :
+    (b.num ≠ 0 → RQ.Representable (RQ.rval a / RQ.rval b) →
+      ∃ r, ratioDiv a b = .ok r ∧ r.Valid ∧ r.canonical = true ∧ RQ.rval r = RQ.rval a / RQ.rval b) ∧
+    (b.num = 0 ∨ ¬ RQ.Representable (RQ.rval a / RQ.rval b) → isErr (ratioDiv a b)) := RQ.ratioDiv_rat a b ha hb
+
+/-- the six comparison traits are the comparisons of `ℚ`, for all valid operands -/
+theorem ratioEqual_rat (a b : Rat) (ha : a.Valid) (hb : b.Valid) : ratioEqual a b = decide (RQ.rval a = RQ.rval b) :=
+  RQ.ratioEqual_rat a b ha hb
+theorem ratioNotEqual_rat (a b : Rat) (ha : a.Valid) (hb : b.Valid) : ratioNotEqual a b = decide (RQ.rval a ≠ RQ.rval b) :=
+  RQ.ratioNotEqual_rat a b ha hb
+theorem ratioLess_rat (a b : Rat) (ha : a.Valid) (hb : b.Valid) : ratioLess a b = .ok (decide (RQ.rval a < RQ.rval b)) :=
+  RQ.ratioLess_rat a b ha hb
+theorem ratioLessEqual_rat (a b : Rat) (ha : a.Valid) (hb : b.Valid) :
+    ratioLessEqual a b = .ok (decide (RQ.rval a ≤ RQ.rval b)) := RQ.ratioLessEqual_rat a b ha hb
+theorem ratioGreater_rat (a b : Rat) (ha : a.Valid) (hb : b.Valid) :
+    ratioGreater a b = .ok (decide (RQ.rval a > RQ.rval b)) := RQ.ratioGreater_rat a b ha hb
+theorem ratioGreaterEqual_rat (a b : Rat) (ha : a.Valid) (hb : b.Valid) :
+    ratioGreaterEqual a b = .ok (decide (RQ.rval a ≥ RQ.rval b)) := RQ.ratioGreaterEqual_rat a b ha hb
 
 /-! ### non-vacuity: the hypotheses hold on non-trivial values -/
 
